@@ -90,6 +90,41 @@ class Resolver:
         if isinstance(expr, ast.Name):
             if expr.id in mapping:
                 return [Alt(copy.deepcopy(mapping[expr.id]))]
+            # n, attr = helper(...): the i-th component of what the helper returns
+            for s, g in stmts:
+                if isinstance(s, ast.Assign) and len(s.targets) == 1 and isinstance(s.targets[0], ast.Tuple) and isinstance(s.value, ast.Call) and isinstance(s.value.func, ast.Name) and not s.value.keywords:
+                    names = [t.id if isinstance(t, ast.Name) else None for t in s.targets[0].elts]
+                    if expr.id in names and expr.id not in _params(fn_node):
+                        pos = names.index(expr.id)
+                        callee = None
+                        for sc in reversed(scopes):
+                            callee = self.nested_defs(sc).get(s.value.func.id) or callee
+                        callee = callee or self.module_functions.get(s.value.func.id)
+                        if callee is not None:
+                            out = []
+                            arg_alts = [self.resolve(fn_node, a, mapping, depth + 1, scopes) for a in s.value.args]
+                            combos = [[]]
+                            for alts in arg_alts:
+                                combos = [c + [a] for c in combos for a in alts][: self.limit]
+                            for combo in combos:
+                                m2 = {p: a.expr for p, a in zip(_params(callee), combo)}
+                                for rs, rg in _own_stmts_with_guards(callee):
+                                    if isinstance(rs, ast.Return) and isinstance(rs.value, ast.Tuple) and pos < len(rs.value.elts):
+                                        for r in self.resolve(callee, rs.value.elts[pos], m2, depth + 1, scopes + [callee]):
+                                            out.append(Alt(r.expr, [(subst(t, m2), b) for t, b in rg] + r.guards))
+                            if out:
+                                return out[: self.limit]
+            for s, g in stmts:
+                if isinstance(s, ast.Assign) and len(s.targets) == 1 and isinstance(s.targets[0], ast.Tuple) and not isinstance(s.value, ast.Call) and expr.id not in _params(fn_node):
+                    names = [t.id if isinstance(t, ast.Name) else None for t in s.targets[0].elts]
+                    if expr.id in names:
+                        pos = names.index(expr.id)
+                        out = []
+                        for a in self.resolve(fn_node, s.value, mapping, depth + 1, scopes):
+                            if isinstance(a.expr, ast.Tuple) and pos < len(a.expr.elts):
+                                out.append(Alt(a.expr.elts[pos], a.guards))
+                        if out:
+                            return out
             defs = [(s, g) for s, g in stmts if isinstance(s, ast.Assign) and any(isinstance(t, ast.Name) and t.id == expr.id for t in s.targets)]
             if defs and expr.id not in _params(fn_node):
                 out = []
@@ -98,6 +133,13 @@ class Resolver:
                         out.append(Alt(a.expr, [(subst(t, mapping), b) for t, b in g] + a.guards))
                 return out[: self.limit]
             return [Alt(expr)]
+        if isinstance(expr, ast.Tuple) and depth > 0:
+            # keep the tuple shape; resolve the components (first alternative combination only keeps this small)
+            combos = [[]]
+            for e in expr.elts:
+                alts = self.resolve(fn_node, e, mapping, depth + 1, scopes)
+                combos = [c + [a] for c in combos for a in alts][: self.limit]
+            return [Alt(ast.Tuple(elts=[a.expr for a in c], ctx=ast.Load()), [g for a in c for g in a.guards]) for c in combos]
         if isinstance(expr, ast.IfExp):
             out = []
             for a in self.resolve(fn_node, expr.body, mapping, depth + 1, scopes):
@@ -132,6 +174,19 @@ class Resolver:
                 for a in self.resolve(fn_node, expr.args[0], mapping, depth + 1, scopes):
                     out.append(Alt(ast.Call(func=f, args=[a.expr], keywords=[]), a.guards))
                 return out
+        if isinstance(expr, ast.Subscript) and isinstance(expr.value, ast.Name) and expr.value.id not in mapping and isinstance(expr.slice, ast.Constant):
+            # record read R["k"] where R is bound to dict literals (possibly one per branch)
+            for sc in reversed(scopes):
+                lits = [(s, g) for s, g in _own_stmts_with_guards(sc) if isinstance(s, ast.Assign) and any(isinstance(t, ast.Name) and t.id == expr.value.id for t in s.targets) and isinstance(s.value, ast.Dict)]
+                if lits:
+                    out = []
+                    for s, g in lits:
+                        for k, v in zip(s.value.keys, s.value.values):
+                            if isinstance(k, ast.Constant) and k.value == expr.slice.value:
+                                for a in self.resolve(sc, v, mapping if sc is fn_node else {}, depth + 1, scopes):
+                                    out.append(Alt(a.expr, [(t, b) for t, b in g] + a.guards))
+                    if out:
+                        return out
         if isinstance(expr, ast.Subscript) and isinstance(expr.value, ast.Name) and expr.value.id not in mapping:
             # memo read C[k]: the values stored into C in this function
             stores = [(s, g) for s, g in stmts if isinstance(s, ast.Assign) and any(isinstance(t, ast.Subscript) and isinstance(t.value, ast.Name) and t.value.id == expr.value.id for t in s.targets)]
